@@ -166,7 +166,16 @@ func genMsgNonce(r *rand.Rand, n int) []string {
 			unprot = []string{"nil", "{ }"}[r.Intn(2)]
 		}
 		mode := "raw"
-		p := buildProduce(r, kind, mode, payloadTok(r, mode, false), "nil", unprot, extTok(r), []msgKey{k})
+		prot := "nil"
+		switch i % 9 {
+		case 2: // the IV / Partial IV labels in the *protected* bucket: they are not looked at there, on either side
+			prot = fmt.Sprintf("{ int:1 int:%d int:5 b:%s }", alg, hx(randBytes(r, ns)))
+		case 5:
+			prot = fmt.Sprintf("{ int:1 int:%d int:6 b:%s }", alg, hx(randBytes(r, 1+r.Intn(ns-1))))
+		case 7: // a caller IV of zero octets only: used verbatim like any other
+			unprot = "{ int:5 b:" + hx(make([]byte, ns)) + " }"
+		}
+		p := buildProduce(r, kind, mode, payloadTok(r, mode, false), prot, unprot, extTok(r), []msgKey{k})
 		out = append(out, p.line)
 		if !p.ok || p.data == nil {
 			continue
@@ -248,6 +257,10 @@ func genMsgForeign(r *rand.Rand, n int) []string {
 		kind := kindsAll[i%len(kindsAll)] // every kind in turn, so that the fixed slots below reach each of them
 		algs := algsForKind(kind)
 		alg := algs[r.Intn(len(algs))]
+		round := i / len(kindsAll)
+		if round%2 == 0 { // every other round: the kind's algorithms in turn (these rounds also carry the history ops below)
+			alg = algs[(round/2)%len(algs)]
+		}
 		k := genMsgKey(r, alg, false)
 		kk := keyFromToks(strings.Fields(k.priv))
 		ext := unhxOpt(extTok(r))
@@ -258,7 +271,7 @@ func genMsgForeign(r *rand.Rand, n int) []string {
 		payload := randBytes(r, []int{0, 1, 23, 24, 255, 256, 300}[r.Intn(7)])
 		algInUnprot := false
 		bodyProt := foreignBucket(r, alg, kind != "sign" && r.Intn(4) != 0) // a quarter carry no alg: the bucket may be h'a0' or h''
-		switch (i / len(kindsAll)) % 6 {                                    // fixed slots: the three encodings of an empty protected bucket, for every kind
+		switch round % 6 {                                    // fixed slots: the three encodings of an empty protected bucket, for every kind
 		case 1:
 			bodyProt = []byte{0xa0}
 		case 3:
@@ -266,7 +279,7 @@ func genMsgForeign(r *rand.Rand, n int) []string {
 		case 5:
 			bodyProt = []byte{0xb8, 0x00}
 		}
-		if kind != "sign" && r.Intn(6) == 0 {
+		if kind != "sign" && round%2 == 1 && r.Intn(3) == 0 { // (odd rounds only: the even ones keep one genuine message per kind and algorithm)
 			// the header names another algorithm than the key's, while signature / tag / ciphertext are made with the key
 			// (for MACs and AEADs the other algorithm often shares the key octets): refused whatever the primitive says
 			other := allRegisteredAlgs[r.Intn(len(allRegisteredAlgs))]
@@ -386,7 +399,7 @@ func genMsgForeign(r *rand.Rand, n int) []string {
 		}
 		p := &producedMsg{kind: kind, mode: "raw", ext: hxOpt(ext), keys: foreignKeys, data: msg, ok: true}
 		out = append(out, p.consumeLine(msg, p.ext, p.pubKeys()), "msg.reencode "+kind+" "+hx(msg))
-		if i%3 == 0 { // the same message object and verifier over two foreign messages / two external data
+		if round%2 == 0 { // the same message object and verifier over two foreign messages / two external data (every kind, every algorithm)
 			out = append(out, history(r, p)[:3]...)
 		}
 		// chain: decode -> encode -> decode -> verify, on the library
